@@ -116,6 +116,9 @@ def cases(tier):
                 out.append(Block(op=op, la=la, lb=lb, Ka=1, Kb=1, Ma=1, Mb=1))
         for la, lb in [(1, 0), (0, 1), (1, 1), (2, 1)]:
             out.append(Block(op=op, la=la, lb=lb, Ka=2, Kb=1, Ma=1, Mb=2))
+        # equal l and >= 2 columns on both sides (two different generalized shells of one type)
+        for l in (1, 2):
+            out.append(Block(op=op, la=l, lb=l, Ka=1, Kb=2 if l < 2 else 1, Ma=2, Mb=2))
         out.append(Public(op=op, ls=[0, 1], types="cc", Ks=[2, 1], Ms=[1, 2]))
         out.append(Public(op=op, ls=[1, 0], types="cc", Ks=[1, 1], Ms=[1, 1]))
         out.append(Public(op=op, ls=[1], types="c", Ks=[2], Ms=[2]))
